@@ -377,6 +377,27 @@ def apply_ind(o, spec, objs):
     o.children = build(spec["children"], objs)
 
 
+def touch(o, kind, v):
+    """In-place edit of a live individual (no attribute is re-assigned)."""
+    if kind == 0 and isinstance(o.custom, dict):
+        o.custom["touched"] = o.custom.get("touched", 0.0) + v if isinstance(o.custom.get("touched", 0.0), float) else v
+    elif kind == 1 and isinstance(o.costs_signed, list):
+        if o.costs_signed and isinstance(o.costs_signed[0], float):
+            o.costs_signed[0] = o.costs_signed[0] + v
+        else:
+            o.costs_signed.append(v)
+    elif kind == 2 and isinstance(o.vector, list) and o.vector and isinstance(o.vector[0], float):
+        o.vector[0] = o.vector[0] + v
+    elif isinstance(o.custom, dict):
+        for val in o.custom.values():
+            if isinstance(val, list):
+                val.append(v)
+                return
+        o.custom["nested"] = [v]
+    elif isinstance(o.costs, list):
+        o.costs.append(v)
+
+
 def g_problem(rng):
     names = rng.sample(["x_1", "x_2", "x", "y", "R;1", "α", "len gth", "p%", "q", "z_10"], rng.randint(0, 5))
     params = []
@@ -413,8 +434,14 @@ def g_history(rng, quick):
     ops = []
     for _ in range(nops):
         r = rng.random()
-        if r < 0.25:
+        if r < 0.2:
             ops.append(["set", rng.randrange(nobj), g_ind(rng, nobj, idpool)])
+        elif r < 0.3:
+            # edit the live object IN PLACE (custom data, signed costs, vector) - as user code and the algorithms do
+            # between two synchronisations; a store must write what the object holds now, not what it remembers
+            ops.append(["touch", rng.randrange(nobj), rng.randrange(4), rng.choice([0.5, -2.25, 7.0, 1e-3])])
+            if rng.random() < 0.6:
+                ops.append(["sync_all"])
         elif r < 0.62:
             ops.append(["sync", rng.randrange(nobj)])
         elif r < 0.8:
@@ -530,6 +557,8 @@ def write_history(case, path):
             try:
                 if op[0] == "set":
                     apply_ind(objs[op[1]], op[2], objs)
+                elif op[0] == "touch":
+                    touch(objs[op[1]], op[2], op[3])
                 elif op[0] == "record":
                     p.individuals.append(objs[op[1]])
                 elif op[0] == "sync":
@@ -750,7 +779,7 @@ def run_history(ctx, rundir):
             ids = [r["id"][1] for r in pm[2]]
             ctx.case(("history", json.dumps(c, sort_keys=True)), history_nontrivial(c),
                      sample={"stream": "history", "mode": c["mode"], "thread_safe": c["thread_safe"],
-                             "ops": [op[:2] if op[0] != "set" else ["set", op[1]] for op in c["ops"]], "rows_expected": sorted(ids)})
+                             "ops": [op[:2] if op[0] not in ("set", "touch") else op[:2] for op in c["ops"]], "rows_expected": sorted(ids)})
             ctx.count("history_mode_" + c["mode"])
             ctx.count("history_thread_safe_%s" % c["thread_safe"])
             ctx.count("history_sync_calls", nops)
